@@ -22,6 +22,16 @@ def esc_repr(x):
     return repr(x)
 
 
+def has_quote(x):
+    if isinstance(x, str):
+        return "'" in x or '\\' in x
+    if isinstance(x, list):
+        return any(has_quote(e) for e in x)
+    if isinstance(x, dict):
+        return any(has_quote(k) or has_quote(v) for k, v in x.items())
+    return False
+
+
 def _stale_read(pair):
     """Consequence of a collision on the real code: compute with x1, then a chain configured with x2 returns x1's
     result."""
@@ -95,7 +105,9 @@ def run(ctx):
             ms = list(distinct.values())
             x1, x2 = ms[0][1], ms[1][1]
             plain = all(not isinstance(m[1], dict) or 'class' not in m[1] for m in ms)
-            quote_class = plain and len({esc_repr(m[1]) for m in ms}) == len(ms)
+            # the known class: the collision needs a quote or backslash character inside some string (or mapping key)
+            # and disappears as soon as those are escaped
+            quote_class = plain and len({esc_repr(m[1]) for m in ms}) == len(ms) and any(has_quote(m[1]) for m in ms)
             conf = run_forked(_stale_read, (x1, x2))
             if not conf['same_path']:
                 raise MachineryError(f'collision of {x1!r} and {x2!r} did not reproduce on real chains')
